@@ -1,7 +1,7 @@
 //! World `base64` (C14): real `Base64Encoder<W>` / `Base64Decoder<R>` between a
 //! scheduled writer/sink and a scheduled short-read / EINTR reader.
 use crate::core::{Ctx, Tier, Violation, World, WorldResult};
-use crate::tape::{cuts, Src};
+use crate::tape::{cuts, Lent, Src};
 use std::io::{Read, Write};
 use surf_n_term::decoder::Base64Decoder;
 use surf_n_term::encoder::Base64Encoder;
@@ -185,10 +185,9 @@ fn run_encode(src: &mut Src, data: &[u8], text: &[u8]) -> WorldResult {
     let fail_at = if src.chance(1, 8) { Some(src.draw(text.len() as u32 + 1) as usize) } else { None };
     let flushes = src.chance(1, 3);
     src.log(|| format!("encode parts={:?} short={} eintr={} fail_at={:?}", parts, short, eintr, fail_at));
-    let mut sink_src = Src::replay(Vec::new());
-    std::mem::swap(src, &mut sink_src);
-    // `sink_src` now holds the live source; the sink owns it for the duration of the encoding
-    let sink = Sink { src: &mut sink_src, out: Vec::new(), short, eintr, fail_at, failed: false };
+    // the sink owns the live source for the duration of the encoding (moved back also on a panic)
+    let mut lent = Lent::new(src);
+    let sink = Sink { src: &mut lent.live, out: Vec::new(), short, eintr, fail_at, failed: false };
     let mut enc = Base64Encoder::new(sink);
     let mut off = 0;
     let mut error = None;
@@ -221,7 +220,7 @@ fn run_encode(src: &mut Src, data: &[u8], text: &[u8]) -> WorldResult {
         Some(Err(err)) => (Vec::new(), true, Some(err.to_string())),
         None => (Vec::new(), true, None),
     };
-    std::mem::swap(src, &mut sink_src);
+    drop(lent);
     src.sig_str("enc");
     src.sig(parts.len().min(6) as u64);
     if inside_group {
@@ -257,10 +256,9 @@ const DST_SIZES: &[usize] = &[4096, 1, 2, 3, 5, 63, 64, 65, 200];
 fn pull(src: &mut Src, text: Vec<u8>, reader_mode: u32, eintr: bool, fail_at: Option<usize>) -> (Result<Vec<u8>, String>, bool, bool) {
     let dst_mode = src.draw(3);
     let fixed = *src.pick(DST_SIZES);
-    let mut live = Src::replay(Vec::new());
-    std::mem::swap(src, &mut live);
+    let mut lent = Lent::new(src);
     let result = {
-        let source = Source { src: &mut live, data: text, pos: 0, mode: reader_mode, eintr, fail_at, failed: false, split_group: false };
+        let source = Source { src: &mut lent.live, data: text, pos: 0, mode: reader_mode, eintr, fail_at, failed: false, split_group: false };
         let mut dec = Base64Decoder::new(source);
         let mut out = Vec::new();
         let mut buf = vec![0u8; 4096];
@@ -296,7 +294,7 @@ fn pull(src: &mut Src, text: Vec<u8>, reader_mode: u32, eintr: bool, fail_at: Op
         }
         result.map(|_| out)
     };
-    std::mem::swap(src, &mut live);
+    drop(lent);
     let hard = src.faults.get("reader-hard-error").copied().unwrap_or(0) > 0;
     let short = src.faults.get("reader-short-read").copied().unwrap_or(0) > 0;
     (result, hard, short)
@@ -343,8 +341,17 @@ fn run_decode_valid(src: &mut Src, data: &[u8], text: &[u8]) -> WorldResult {
 
 fn run_decode_invalid(src: &mut Src, data: &[u8], mut text: Vec<u8>) -> WorldResult {
     // corrupt: truncate to a length that is not a multiple of four, or arbitrary bytes
-    let kind = src.draw(3);
+    let kind = src.draw(4);
     match kind {
+        3 => {
+            // text over a tiny alphabet, heavy on padding: groups like "====", "A===", "=A=="
+            // (uniformly random bytes essentially never produce them)
+            let len = src.draw(17) as usize;
+            text.clear();
+            for _ in 0..len {
+                text.push(*src.pick(&[b'=', b'=', b'A', b'/', b'+', b'-', b'_', 0x80u8]));
+            }
+        }
         0 => {
             // drop 1..3 trailing chars (or add some)
             if text.len() >= 4 {
